@@ -138,6 +138,43 @@ pub fn luau_types() -> Vec<Item> {
     out
 }
 
+/// multi-line call arguments whose operator chains were wrapped by hand: the one-line form of the chain
+/// is close to the column width (just fits / just does not), the text as written is much wider
+/// (line breaks and deep space indentation). Layout decisions must not depend on how the input was wrapped.
+pub fn wrapped_args() -> Vec<Item> {
+    let mut out = Vec::new();
+    let mut k = 0;
+    for width in [40usize, 80, 120] {
+        // the argument sits at one indent level (4 columns) and is followed by a comma
+        for slack in -3i64..=12 {
+            let target = (width as i64 - 4 - 1 - slack) as usize; // one-line length of the chain
+            // four operands joined by " + " (9 characters of operators)
+            if target < 9 + 4 {
+                continue;
+            }
+            let body = target - 9;
+            let lens = [body / 4 + body % 4, body / 4, body / 4, body / 4];
+            let names: Vec<String> = lens.iter().enumerate().map(|(i, l)| format!("{}{}", ["a", "b", "c", "d"][i], "x".repeat(l.saturating_sub(1)))).collect();
+            for style in 0..3 {
+                let (sep, ind) = match style {
+                    0 => ("\n", "            "), // space-indented continuation lines
+                    1 => ("\n", "\t\t"),
+                    _ => (" ", ""),               // already on one line
+                };
+                let chain = format!("{}{}{}+ {}{}{}+ {}{}{}+ {}", names[0], sep, ind, names[1], sep, ind, names[2], sep, ind, names[3]);
+                let text = format!("register(\n    first,\n    {},\n    last\n)\n", chain);
+                out.push(Item { rel: format!("gen/wrapped-args#{}.w{}.s{}.{}", k, width, slack, style), syntax: LuaVersion::Lua51, text });
+                let text2 = format!("local v = compute(\n    first,\n    {}\n)\n", chain);
+                out.push(Item { rel: format!("gen/wrapped-args#{}.w{}.s{}.{}.local", k, width, slack, style), syntax: LuaVersion::Lua51, text: text2 });
+                k += 1;
+            }
+        }
+    }
+    out
+}
+
 pub fn all() -> Vec<Item> {
-    luau_types()
+    let mut v = luau_types();
+    v.extend(wrapped_args());
+    v
 }
